@@ -16,6 +16,7 @@ pub mod source;
 pub mod stream;
 pub mod trace;
 pub mod writer_hist;
+pub mod wstream;
 
 pub use serde_json::{json, Value};
 
